@@ -67,16 +67,21 @@ def mat_of(inst) -> list:
     return [[small(int(inst[i, j])) for j in range(n)] for i in range(n)]
 
 
-def explicit_case(cid: str, M: list, fmt: str, breaks: set, blanks=frozenset()) -> dict | None:
+def explicit_case(cid: str, M: list, fmt: str, breaks: set, blanks=frozenset(), diag=None) -> dict | None:
     n = len(M)
     sym = all(M[i][j] == M[j][i] for i in range(n) for j in range(n))
-    toks = tokens_of(fmt, M)
+    D = [r[:] for r in M]
+    if diag is not None:
+        for i in range(n):
+            D[i][i] = diag[i]
+    toks = tokens_of(fmt, D)
     try:
         inst = load_text(explicit_text("v", n, fmt, sym, wrap(toks, breaks, blanks)))
     except ValueError as ex:
-        return {"id": cid, "kind": "explicit", "n": n, "fmt": fmt, "M": M, "tokens": toks,
+        return {"id": cid, "kind": "explicit", "n": n, "fmt": fmt, "M": M, "D": D, "tokens": toks,
                 "loaded": [], "error": str(ex)[:200]}
-    return {"id": cid, "kind": "explicit", "n": n, "fmt": fmt, "M": M, "tokens": toks, "loaded": mat_of(inst)}
+    return {"id": cid, "kind": "explicit", "n": n, "fmt": fmt, "M": M, "D": D, "tokens": toks,
+            "loaded": mat_of(inst)}
 
 
 def roundtrip_case(cid: str, M: list, name: str) -> dict:
@@ -151,7 +156,8 @@ def run(prop: str, tier: str, seed: int) -> int:
                 elif len(all_breaks) > 64:
                     all_breaks = rng.sample(all_breaks, 64)
                 for b in all_breaks:
-                    cases.append(explicit_case(f"all-{len(cases)}", M, fmt, b))
+                    dg = None if rng.random() < 0.6 else [rng.choice([0, 7, 9999]) for _ in range(n)]
+                    cases.append(explicit_case(f"all-{len(cases)}", M, fmt, b, diag=dg))
                     n_a += 1
     rep.family("scope-matrices-x-formats-x-wrappings", n_a, n_a)
     rep.nontrivial += n_a
@@ -173,7 +179,8 @@ def run(prop: str, tier: str, seed: int) -> int:
         else:
             breaks = {b for b in range(1, L) if rng.random() < rng.choice([0.1, 0.3, 0.6])}
         blanks = {b for b in breaks if rng.random() < 0.2}
-        cases.append(explicit_case(f"rand-{k}", M, fmt, breaks, blanks))
+        dg = None if rng.random() < 0.5 else [rng.choice([0, 1, 9999, 10 ** 6]) for _ in range(n)]
+        cases.append(explicit_case(f"rand-{k}", M, fmt, breaks, blanks, diag=dg))
         rep.family("random-explicit", 1, 1)
         M2 = ts.random_matrix(rng, n, hi, rng.random() < 0.5, zeros=0.1)
         if rng.random() < 0.3 and n >= 3:      # nearly symmetric large weights
